@@ -83,6 +83,15 @@ translator was re-run and `git status lean/CnvVerif/Generated` had to show no mo
 merged readers still produce every branch's generated definitions byte for byte. (One resolution silently lost the tail of
 `emit_pieces`, which emptied `ExprsInterval.lean`; this check caught it.)
 
+**Follow-ups from the measured coverage (9.12).** C18: the gap of `_parse_pedigrees` (both GATK branches never executed, the
+model knew PEDIGREE only) is closed: `Model/VcfPairs.lean` models the three conventions and their `if / elif / elif` precedence
+on the pysam view of the header (GATKCommandLine ID + option tokens as data; `strip` / `split` trusted), `readVcfH` /
+`loadHetSnpsH` replace `readVcf` / `loadHetSnps` in the `vcf_read` / `vcf_hets` / `vcf_pipeline` ops (identical without GATK
+records), `VErr` gains `typeError`; 16 theorems in `Props/C18Pairs.lean` (precedence, exact pair per convention, "the first
+declared pair is the pair read"); 18 generator cells crossed with selectors on real header lines; three mutations of the
+branch (pair swapped, NORMAL/TUMOR test inverted, `elif` → `if`) are caught with replays; no defect of /repo. A source tie
+of the key precedence and the general `chooseNamesH = chooseNames` bridge were not built. C03: see below if merged.
+
 **Trusted base, additions.** The readers in the table above with their stated rules; the one-line primitives in
 `Model/PyPrims.lean`, `NpVec.lean`, `PyStr.lean`, `PyRow.lean`; hand-written control flow re-assembling generated fragments
 (`Lemmas/SrcArm.lean: srcCmereIdx`, `pySlice`); the atoms named verbatim by extractors (`exprs_interval.py`), the vocabulary of
